@@ -216,8 +216,9 @@ def AtomsOk (env : KeyEnv) : Ms → Prop
   | .andV l r | .andB l r | .orB l r | .orD l r | .orC l r | .orI l r => AtomsOk env l ∧ AtomsOk env r
   | .andOr a b c => AtomsOk env a ∧ AtomsOk env b ∧ AtomsOk env c
   | .thresh k xs => k < 2147483648 ∧ AtomsOkL env xs
-  | .multi k ks | .sortedMulti k ks | .multiA k ks | .sortedMultiA k ks =>
+  | .multi k ks | .sortedMulti k ks =>
     k < 2147483648 ∧ ks.length < 2147483648 ∧ ∀ x ∈ ks, keyLenOk env x
+  | .multiA k ks | .sortedMultiA k ks => k < 2147483648 ∧ ∀ x ∈ ks, keyLenOk env x
 def AtomsOkL (env : KeyEnv) : MsList → Prop
   | .nil => True
   | .cons x xs => AtomsOk env x ∧ AtomsOkL env xs
@@ -471,14 +472,14 @@ theorem lexable_encode (env : KeyEnv) (ctx : Ctx) : (ms : Ms) → AtomsOk env ms
   | .multiA k ks, h, op, hop => by
     simp only [encode, List.mem_append, List.mem_cons] at hop
     rcases hop with h1 | rfl | rfl | h0
-    · exact lexable_multiA env ks h.2.2 op h1
+    · exact lexable_multiA env ks h.2 op h1
     · exact lexable_pushInt h.1
     · trivial
     · simp at h0
   | .sortedMultiA k ks, h, op, hop => by
     simp only [encode, List.mem_append, List.mem_cons] at hop
     rcases hop with h1 | rfl | rfl | h0
-    · exact lexable_multiA env _ (fun x hx => h.2.2 x (mem_sortKeys env ks x hx)) op h1
+    · exact lexable_multiA env _ (fun x hx => h.2 x (mem_sortKeys env ks x hx)) op h1
     · exact lexable_pushInt h.1
     · trivial
     · simp at h0
@@ -772,11 +773,11 @@ theorem lex_encode (env : KeyEnv) (ctx : Ctx) (s : Bool) : (ms : Ms) → AtomsOk
       (PI.cons (fun prev => (pushInt_lex h.2.1 s prev).1) (PI.code (c := .checkmultisig) (by decide) s))
   | .multiA k ks, h => by
     simp only [encode, tokens]
-    exact (PI.multiA env s ks h.2.2).append
+    exact (PI.multiA env s ks h.2).append
       (PI.cons (fun prev => (pushInt_lex h.1 s prev).1) (PI.code (c := .numequal) (by decide) s))
   | .sortedMultiA k ks, h => by
     simp only [encode, tokens]
-    exact (PI.multiA env s _ (fun x hx => h.2.2 x (mem_sortKeys env ks x hx))).append
+    exact (PI.multiA env s _ (fun x hx => h.2 x (mem_sortKeys env ks x hx))).append
       (PI.cons (fun prev => (pushInt_lex h.1 s prev).1) (PI.code (c := .numequal) (by decide) s))
 theorem lex_encodeThresh (env : KeyEnv) (ctx : Ctx) (s : Bool) (first : Bool) : (xs : MsList) →
     AtomsOkL env xs → PI s (encodeThresh env ctx first xs) (threshTokens env ctx first xs)
